@@ -692,7 +692,10 @@ fn collect_changes(
                     continue;
                 }
 
-                let new_entity = marker_added || visibility == Visibility::Gained;
+                // A client that joined later has no mutation tick for entities it hasn't received yet.
+                let new_entity = marker_added
+                    || visibility == Visibility::Gained
+                    || ticks.mutation_tick(entity.id()).is_none();
                 if new_entity
                     || updates.changed_entity_added()
                     || removal_buffer.contains_key(&entity.id())
